@@ -94,7 +94,7 @@ example : ∃ A1 A2 : T3 ℂ, NormContract exK.cnorm ∧
     C15.EighAt (localHFun (ones111 : T3 ℂ) ones111 exW exA.d0 exA.d1 exA.d2) exK.cnorm exK.deigh (flat3 A1) 1 ∧
     localHamiltonianStep exK ones111 ones111 exW A1 (-Complex.I) 1 = .ok A2 ∧
     ∀ x : ℝ, exK.dexp (Complex.I * (x : ℂ)) * exK.dexp (-Complex.I * (x : ℂ)) = 1 := by
-  obtain ⟨A1, h1⟩ := localStep_ok_one (k := exK) rfl (L := ones111) (R := ones111) (W := exW) exA_pos Complex.I
+  obtain ⟨A1, h1⟩ := localStep_ok_one (k := exK) rfl (L := ones111) (R := ones111) (W := exW) sqrtNorm_contract exA_pos Complex.I
   -- the evolved tensor has the norm of the start tensor (`C08.local_step_unitary`), hence positive norm
   obtain ⟨a0, a1, a2, hfr⟩ := localStep_norm (t := -1) sqrtNorm_contract exLocal_fits exLocal_herm (eighAt_one _ _ _)
     exK_exp (by simp) h1
@@ -104,7 +104,7 @@ example : ∃ A1 A2 : T3 ℂ, NormContract exK.cnorm ∧
     unfold sqrtNorm at h0 ⊢
     rw [sqNorm_flat3] at h0 ⊢
     rw [hfr]; exact h0
-  obtain ⟨A2, h2⟩ := localStep_ok_one (k := exK) rfl (L := ones111) (R := ones111) (W := exW) hpos (-Complex.I)
+  obtain ⟨A2, h2⟩ := localStep_ok_one (k := exK) rfl (L := ones111) (R := ones111) (W := exW) sqrtNorm_contract hpos (-Complex.I)
   exact ⟨A1, A2, sqrtNorm_contract, exLocal_fits, exLocal_herm, eighAt_one _ _ _, h1, eighAt_one _ _ _, h2,
     fun _ => by simp [exK]⟩
 
